@@ -152,10 +152,16 @@ impl World {
                     self.fault_ev = Some(self.clock.get());
                     self.fault_op = Some(op);
                 }
-                let kind = match self.fault.err_kind % 3 {
+                let kind = match self.fault.err_kind {
+                    // what a signal, a non-blocking socket or a socket timeout hand to a blocking reader
+                    100 => io::ErrorKind::Interrupted,
+                    101 => io::ErrorKind::WouldBlock,
+                    102 => io::ErrorKind::TimedOut,
+                    k => match k % 3 {
                     0 => io::ErrorKind::BrokenPipe,
                     1 => io::ErrorKind::ConnectionReset,
                     _ => io::ErrorKind::Other,
+                    },
                 };
                 return Some(io::Error::new(kind, "vmon: injected transport fault"));
             }
